@@ -40,7 +40,14 @@ DocSeeds == { << <<"h", "i", "j", "...">>, <<"h", "j", "...">>, <<"h", "i", "...
               << <<"...", "i", "j">>, <<"...", "j">>, <<"...", "i">> >>,
               << <<"k", "k", "i", "j">>, <<"k", "j">>, <<"k", "i">> >>,
               << <<"i", "j", "j", "k">>, <<"k", "j">>, <<"k", "i">> >>,
-              << <<"k", "i", "...", "j">>, <<"j", "...", "k">>, <<"i", "...", "k">> >> }
+              << <<"k", "i", "...", "j">>, <<"j", "...", "k">>, <<"i", "...", "k">> >>,
+              \* two batch items (letters, or a letter and the ellipsis) listed in the same / in a different order
+              \* in the leaf and in the output: the reordering check of the algorithm decides
+              << <<"h", "k", "i", "j">>, <<"h", "k", "j">>, <<"h", "k", "i">> >>,
+              << <<"h", "k", "i", "j">>, <<"h", "k", "j">>, <<"k", "h", "i">> >>,
+              << <<"h", "k", "i", "j">>, <<"k", "h", "j">>, <<"h", "k", "i">> >>,
+              << <<"k", "...", "i", "j">>, <<"k", "...", "j">>, <<"...", "k", "i">> >>,
+              << <<"k", "...", "i", "j">>, <<"k", "...", "j">>, <<"k", "...", "i">> >> }
 
 Init == /\ phase = "b" /\ b = <<>> /\ x = <<>> /\ o = <<>> /\ form = "" /\ alg = AlgInit(<<>>)
         /\ par = NoPar /\ jd = NoJd
